@@ -1,0 +1,82 @@
+//go:build verif
+
+// Contracts for the verification machinery in /verif (comment-only; never compiled into a binary).
+// Properties C01 (accounting exact), C02 (runtime quota sharing), C03 (admission), C15 (consumer of acyclicity).
+
+package core
+
+// ---------- QuotaInfo arithmetic (C01) ----------
+
+// m holds base+delta, or 0 where that sum is negative and the entry was already clamped
+//@ spec func sumOrZero(m v1.ResourceList, base v1.ResourceList, delta v1.ResourceList) bool = forall n v1.ResourceName :: val(m, n) == old(val(base, n)) + val(delta, n) || (val(m, n) == 0 && old(val(base, n)) + val(delta, n) < 0)
+//@ spec func clampedSum(m v1.ResourceList, base v1.ResourceList, delta v1.ResourceList) bool = forall n v1.ResourceName :: val(m, n) == max0(old(val(base, n)) + val(delta, n))
+//@ spec func sameDom(m v1.ResourceList, base v1.ResourceList, delta v1.ResourceList) bool = forall n v1.ResourceName :: has(m, n) == (old(has(base, n)) || has(delta, n))
+//@ spec func sameList(m v1.ResourceList, base v1.ResourceList) bool = forall n v1.ResourceName :: has(m, n) == old(has(base, n)) && val(m, n) == old(val(base, n))
+
+//@ func createQuantity [C01]
+//@   ensures #cpu: resName == v1.ResourceCPU ==> result == real(value) / 1000
+//@   ensures #other: resName != v1.ResourceCPU ==> result == real(value)
+//@   modifies nothing
+
+//@ func (*QuotaInfo).addChildRequestNonNegativeNoLock [C01]
+//@   requires qi != nil
+//@   ensures #val: clampedSum(qi.CalculateInfo.ChildRequest, old(qi.CalculateInfo.ChildRequest), delta)
+//@   ensures #dom: sameDom(qi.CalculateInfo.ChildRequest, old(qi.CalculateInfo.ChildRequest), delta)
+//@   ensures #fresh: fresh(qi.CalculateInfo.ChildRequest)
+//@   modifies qi.CalculateInfo.ChildRequest
+//@   loop 1 invariant fresh(qi.CalculateInfo.ChildRequest) && sumOrZero(qi.CalculateInfo.ChildRequest, old(qi.CalculateInfo.ChildRequest), delta) && sameDom(qi.CalculateInfo.ChildRequest, old(qi.CalculateInfo.ChildRequest), delta)
+//@   loop 1 invariant forall j int :: 0 <= j && j < $i ==> val(qi.CalculateInfo.ChildRequest, $range[j]) == 0
+
+//@ func (*QuotaInfo).addUsedNonNegativeNoLock [C01]
+//@   requires qi != nil
+//@   ensures #used: clampedSum(qi.CalculateInfo.Used, old(qi.CalculateInfo.Used), delta) && sameDom(qi.CalculateInfo.Used, old(qi.CalculateInfo.Used), delta)
+//@   ensures #npused: clampedSum(qi.CalculateInfo.NonPreemptibleUsed, old(qi.CalculateInfo.NonPreemptibleUsed), deltaNonPreemptibleUsed) && sameDom(qi.CalculateInfo.NonPreemptibleUsed, old(qi.CalculateInfo.NonPreemptibleUsed), deltaNonPreemptibleUsed)
+//@   ensures #self: isSelfUsed ==> clampedSum(qi.CalculateInfo.SelfUsed, old(qi.CalculateInfo.SelfUsed), delta) && clampedSum(qi.CalculateInfo.SelfNonPreemptibleUsed, old(qi.CalculateInfo.SelfNonPreemptibleUsed), deltaNonPreemptibleUsed)
+//@   ensures #selfdom: isSelfUsed ==> sameDom(qi.CalculateInfo.SelfUsed, old(qi.CalculateInfo.SelfUsed), delta) && sameDom(qi.CalculateInfo.SelfNonPreemptibleUsed, old(qi.CalculateInfo.SelfNonPreemptibleUsed), deltaNonPreemptibleUsed)
+//@   ensures #notself: !isSelfUsed ==> qi.CalculateInfo.SelfUsed == old(qi.CalculateInfo.SelfUsed) && qi.CalculateInfo.SelfNonPreemptibleUsed == old(qi.CalculateInfo.SelfNonPreemptibleUsed)
+//@   ensures #fresh: fresh(qi.CalculateInfo.Used) && fresh(qi.CalculateInfo.NonPreemptibleUsed) && (isSelfUsed ==> fresh(qi.CalculateInfo.SelfUsed) && fresh(qi.CalculateInfo.SelfNonPreemptibleUsed))
+//@   modifies qi.CalculateInfo.Used, qi.CalculateInfo.NonPreemptibleUsed, qi.CalculateInfo.SelfUsed, qi.CalculateInfo.SelfNonPreemptibleUsed
+//@   loop 1 invariant fresh(qi.CalculateInfo.Used) && fresh(qi.CalculateInfo.NonPreemptibleUsed) && qi.CalculateInfo.Used != qi.CalculateInfo.NonPreemptibleUsed
+//@   loop 1 invariant sumOrZero(qi.CalculateInfo.Used, old(qi.CalculateInfo.Used), delta) && sameDom(qi.CalculateInfo.Used, old(qi.CalculateInfo.Used), delta)
+//@   loop 1 invariant forall j int :: 0 <= j && j < $i ==> val(qi.CalculateInfo.Used, $range[j]) == 0
+//@   loop 2 invariant fresh(qi.CalculateInfo.NonPreemptibleUsed)
+//@   loop 2 invariant sumOrZero(qi.CalculateInfo.NonPreemptibleUsed, old(qi.CalculateInfo.NonPreemptibleUsed), deltaNonPreemptibleUsed) && sameDom(qi.CalculateInfo.NonPreemptibleUsed, old(qi.CalculateInfo.NonPreemptibleUsed), deltaNonPreemptibleUsed)
+//@   loop 2 invariant forall j int :: 0 <= j && j < $i ==> val(qi.CalculateInfo.NonPreemptibleUsed, $range[j]) == 0
+//@   loop 3 invariant fresh(qi.CalculateInfo.SelfUsed)
+//@   loop 3 invariant sumOrZero(qi.CalculateInfo.SelfUsed, old(qi.CalculateInfo.SelfUsed), delta) && sameDom(qi.CalculateInfo.SelfUsed, old(qi.CalculateInfo.SelfUsed), delta)
+//@   loop 3 invariant forall j int :: 0 <= j && j < $i ==> val(qi.CalculateInfo.SelfUsed, $range[j]) == 0
+//@   loop 4 invariant fresh(qi.CalculateInfo.SelfNonPreemptibleUsed)
+//@   loop 4 invariant sumOrZero(qi.CalculateInfo.SelfNonPreemptibleUsed, old(qi.CalculateInfo.SelfNonPreemptibleUsed), deltaNonPreemptibleUsed) && sameDom(qi.CalculateInfo.SelfNonPreemptibleUsed, old(qi.CalculateInfo.SelfNonPreemptibleUsed), deltaNonPreemptibleUsed)
+//@   loop 4 invariant forall j int :: 0 <= j && j < $i ==> val(qi.CalculateInfo.SelfNonPreemptibleUsed, $range[j]) == 0
+
+//@ func (*QuotaInfo).addRequestNonNegativeNoLock [C01]
+//@   requires qi != nil
+//@   ensures #req: clampedSum(qi.CalculateInfo.Request, old(qi.CalculateInfo.Request), delta) && sameDom(qi.CalculateInfo.Request, old(qi.CalculateInfo.Request), delta)
+//@   ensures #npreq: clampedSum(qi.CalculateInfo.NonPreemptibleRequest, old(qi.CalculateInfo.NonPreemptibleRequest), deltaNonPreemptibleRequest) && sameDom(qi.CalculateInfo.NonPreemptibleRequest, old(qi.CalculateInfo.NonPreemptibleRequest), deltaNonPreemptibleRequest)
+//@   ensures #self: isSelfRequest ==> clampedSum(qi.CalculateInfo.SelfRequest, old(qi.CalculateInfo.SelfRequest), delta) && clampedSum(qi.CalculateInfo.SelfNonPreemptibleRequest, old(qi.CalculateInfo.SelfNonPreemptibleRequest), deltaNonPreemptibleRequest)
+//@   ensures #selfdom: isSelfRequest ==> sameDom(qi.CalculateInfo.SelfRequest, old(qi.CalculateInfo.SelfRequest), delta) && sameDom(qi.CalculateInfo.SelfNonPreemptibleRequest, old(qi.CalculateInfo.SelfNonPreemptibleRequest), deltaNonPreemptibleRequest)
+//@   ensures #notself: !isSelfRequest ==> qi.CalculateInfo.SelfRequest == old(qi.CalculateInfo.SelfRequest) && qi.CalculateInfo.SelfNonPreemptibleRequest == old(qi.CalculateInfo.SelfNonPreemptibleRequest)
+//@   ensures #fresh: fresh(qi.CalculateInfo.Request) && fresh(qi.CalculateInfo.NonPreemptibleRequest) && (isSelfRequest ==> fresh(qi.CalculateInfo.SelfRequest) && fresh(qi.CalculateInfo.SelfNonPreemptibleRequest))
+//@   modifies qi.CalculateInfo.Request, qi.CalculateInfo.NonPreemptibleRequest, qi.CalculateInfo.SelfRequest, qi.CalculateInfo.SelfNonPreemptibleRequest
+//@   loop 1 invariant fresh(qi.CalculateInfo.Request)
+//@   loop 1 invariant sumOrZero(qi.CalculateInfo.Request, old(qi.CalculateInfo.Request), delta) && sameDom(qi.CalculateInfo.Request, old(qi.CalculateInfo.Request), delta)
+//@   loop 1 invariant forall j int :: 0 <= j && j < $i ==> val(qi.CalculateInfo.Request, $range[j]) == 0
+//@   loop 2 invariant fresh(qi.CalculateInfo.NonPreemptibleRequest)
+//@   loop 2 invariant sumOrZero(qi.CalculateInfo.NonPreemptibleRequest, old(qi.CalculateInfo.NonPreemptibleRequest), deltaNonPreemptibleRequest) && sameDom(qi.CalculateInfo.NonPreemptibleRequest, old(qi.CalculateInfo.NonPreemptibleRequest), deltaNonPreemptibleRequest)
+//@   loop 2 invariant forall j int :: 0 <= j && j < $i ==> val(qi.CalculateInfo.NonPreemptibleRequest, $range[j]) == 0
+//@   loop 3 invariant fresh(qi.CalculateInfo.SelfRequest)
+//@   loop 3 invariant sumOrZero(qi.CalculateInfo.SelfRequest, old(qi.CalculateInfo.SelfRequest), delta) && sameDom(qi.CalculateInfo.SelfRequest, old(qi.CalculateInfo.SelfRequest), delta)
+//@   loop 3 invariant forall j int :: 0 <= j && j < $i ==> val(qi.CalculateInfo.SelfRequest, $range[j]) == 0
+//@   loop 4 invariant fresh(qi.CalculateInfo.SelfNonPreemptibleRequest)
+//@   loop 4 invariant sumOrZero(qi.CalculateInfo.SelfNonPreemptibleRequest, old(qi.CalculateInfo.SelfNonPreemptibleRequest), deltaNonPreemptibleRequest) && sameDom(qi.CalculateInfo.SelfNonPreemptibleRequest, old(qi.CalculateInfo.SelfNonPreemptibleRequest), deltaNonPreemptibleRequest)
+//@   loop 4 invariant forall j int :: 0 <= j && j < $i ==> val(qi.CalculateInfo.SelfNonPreemptibleRequest, $range[j]) == 0
+
+//@ func (*QuotaInfo).getLimitRequestNoLock [C01,C03]
+//@   requires qi != nil
+//@   ensures #dom: forall n v1.ResourceName :: has(result, n) == has(qi.CalculateInfo.Request, n)
+//@   ensures #val: forall n v1.ResourceName :: has(qi.CalculateInfo.Request, n) ==> val(result, n) == (has(qi.CalculateInfo.Max, n) && val(qi.CalculateInfo.Request, n) > val(qi.CalculateInfo.Max, n) ? val(qi.CalculateInfo.Max, n) : val(qi.CalculateInfo.Request, n))
+//@   ensures #fresh: qi.CalculateInfo.Request != nil ==> fresh(result)
+//@   modifies nothing
+//@   loop 1 invariant limitRequest != nil ==> fresh(limitRequest)
+//@   loop 1 invariant forall n v1.ResourceName :: has(limitRequest, n) == has(qi.CalculateInfo.Request, n)
+//@   loop 1 invariant forall n v1.ResourceName :: val(limitRequest, n) == ($seen[n] && has(qi.CalculateInfo.Max, n) && val(qi.CalculateInfo.Request, n) > val(qi.CalculateInfo.Max, n) ? val(qi.CalculateInfo.Max, n) : val(qi.CalculateInfo.Request, n))
